@@ -21,3 +21,7 @@ package kex
 //@   callassert Digest#1: @keys arg1 == s.Cipher.MacAlg && bytes(arg2) == bytes(s.SVK) && arg0.Payload != nil && u(arg0.Payload.Val) == u(enc0)
 //@   ensures @frame16 err == nil && s.Cipher.MacAlg == 0 ==> dyntype(result0, "*cose.Encrypt0Tag[any,[]byte]")
 //@   ensures @frame17 err == nil && s.Cipher.MacAlg != 0 ==> dyntype(result0, "*cose.Mac0Tag[cose.Encrypt0[any,[]byte],[]byte]")
+
+//@ func kex.Suite.New
+//@   nopaths
+//@   pure
